@@ -11,5 +11,5 @@ if [ -d harness/tools/clockoverlay ]; then (cd harness && go build -o ../build/c
 (cd coq && coq_makefile -f _CoqProject -o Makefile && timeout 7200 make -j16)
 if [ -x build/clockoverlay ]; then ./build/clockoverlay -repo /repo -out build/overlay; fi
 OV=""; [ -f build/overlay.json ] && OV="-overlay build/overlay.json"
-(cd harness && CGO_ENABLED=0 go build -tags verif $(echo $OV | sed 's#build/#../build/#') -o ../build/drive ./cmd/drive)
+for d in harness/cmd/*/; do n=$(basename $d); (cd harness && CGO_ENABLED=0 go build -tags verif $(echo $OV | sed "s#build/#../build/#") -o ../build/$n ./cmd/$n); done
 echo "setup ok"
